@@ -45,7 +45,7 @@ Qed.
 Definition mstate (s : state) : ms := tracks ms0 (trace s).
 Arguments mstate s : simpl never.
 Definition emits (os : list oev) (s : state) : state :=
-  mkSt (s_srv s) (s_fired s) (s_lost s) (s_armed s) (s_sigarm s) (s_queue s) (s_conns s) (rev os ++ s_out s).
+  mkSt (s_srv s) (s_fired s) (s_lost s) (s_armed s) (s_sigarm s) (s_keep s) (s_queue s) (s_conns s) (rev os ++ s_out s).
 Definition Good (chk : ms -> oev -> bool) (s : state) : Prop := mon_from chk ms0 (trace s) = true.
 
 Lemma tracks_app : forall a b m, tracks m (a ++ b) = tracks (tracks m a) b.
@@ -570,11 +570,17 @@ Proof.
   assert (HR := full_get _ _ _ _ _ _ F Hx).
   assert (Hc : k_cause (mstate s) = true).
   { destruct (full_rel _ _ _ _ F). apply g_cause0. rewrite Hd. now rewrite !orb_true_r. }
-  rewrite emit_emits.
+  assert (E : (if s_keep s then modc c (w_ph Refused) s else emit (ORefused c) (modc c (w_ph Refused) s))
+              = emits (if s_keep s then [] else [ORefused c]) (modc c (w_ph Refused) s)).
+  { destruct (s_keep s); reflexivity. }
+  rewrite E.
   eapply full_conn with (fy := fun y => y) (x := x);
-    [exact F | exact Hx | apply conn_only_updc | reflexivity | reflexivity | | discriminate | auto | reflexivity].
-  rc_start HR. destruct x as [k p t cu ga il go fa ke]. cbn in *. subst p.
-  constructor; cbn in *; auto; intros; rc_fin.
+    [exact F | exact Hx | | | | | discriminate | auto | reflexivity].
+  - destruct (s_keep s); [apply conn_only_nil; eapply full_lt; eauto | apply conn_only_updc].
+  - destruct (s_keep s); reflexivity.
+  - destruct (s_keep s); reflexivity.
+  - rc_start HR. destruct x as [k p t cu ga il go fa ke]. cbn in *. subst p.
+    constructor; cbn in *; auto; intros; rc_fin.
 Qed.
 
 Lemma refuse_same : forall c s,
@@ -585,7 +591,11 @@ Lemma refuse_same : forall c s,
   /\ (forall c' x, get c' (refuse s c) = Some x -> c_ph x = Queued -> get c' s = Some x).
 Proof.
   intros. unfold refuse. destruct (get c s) as [x0|] eqn:Hx.
-  - destruct (c_ph x0) eqn:Hp; cbn; refine (conj _ (conj _ (conj _ (conj _ (conj _ _))))); auto;
+  - destruct (c_ph x0) eqn:Hp;
+      try (replace (if s_keep s then modc c (w_ph Refused) s else emit (ORefused c) (modc c (w_ph Refused) s))
+             with (emits (if s_keep s then [] else [ORefused c]) (modc c (w_ph Refused) s))
+             by (destruct (s_keep s); reflexivity));
+      cbn; refine (conj _ (conj _ (conj _ (conj _ (conj _ _))))); auto;
       try (intros; congruence); try apply upd_length.
     + intros. unfold get. cbn. apply nth_upd_neq. congruence.
     + intros x. unfold get in *. cbn. rewrite nth_upd_eq, Hx. cbn. intros H. inv H. cbn. discriminate.
@@ -1383,6 +1393,8 @@ Proof.
   - apply (Act (act_disc c)). intros. now apply fq_act_disc.
   - apply (Act (act_garb c)). intros. now apply fq_act_garb.
   - apply (Act (act_herr g c)). intros. now apply fq_act_herr.
+  - (* the caller keeps the future: nothing observable yet *)
+    destruct F as [R G]. split; [| exact G]. destruct R. constructor; auto.
 Qed.
 
 Lemma full_init : forall ns g, Full ns g (s_queue init) init.
@@ -1732,6 +1744,7 @@ Proof.
   - change (causes (act_disc c (settle g s)) = causes s). now rewrite causes_act_disc.
   - change (causes (act_garb c (settle g s)) = causes s). now rewrite causes_act_garb.
   - change (causes (act_herr g c (settle g s)) = causes s). now rewrite causes_act_herr.
+  - reflexivity.
 Qed.
 
 Lemma causes_run : forall g evs s,
